@@ -151,7 +151,7 @@ def check_program(L: harness.Loaded, prog: Dict[str, Any], part: Part) -> None:
             lossy = dc.lossy
         except refodx.Reject:
             # BIT-MASK types AND away what is outside the mask (standard-mandated): no expectation for invalid values
-            lossy = prog["tags"][0] == "mask"
+            lossy = prog["tags"][0].startswith("mask")
         except Exception:
             pass
         if lossy:
